@@ -314,8 +314,12 @@ Section WF.
 
   (* what the user has to respect; the last conjunct is the uniqueness of all ids, derived
      -array / -vertices ones included, read off the emitted tree *)
+  (* the lexical table knows the few fixed words the writer itself puts into attributes *)
+  Definition wf_lex : bool :=
+    aval_is (SLex lx_NMTOKEN) (AStr a_GOOGLEEARTH) && aval_is (SLex lx_NMTOKEN) (AStr a_MAX3D) &&
+    aval_is (SLex lx_NMTOKEN) (AStr a_POSITION).
   Definition wf_content (d : doc) : bool :=
-    wf_asset (d_asset d) && forallb wf_camera (d_cameras d) && forallb wf_effect (d_effects d) &&
+    wf_lex && wf_asset (d_asset d) && forallb wf_camera (d_cameras d) && forallb wf_effect (d_effects d) &&
     forallb wf_geometry (d_geometries d) && forallb wf_image (d_images d) && forallb wf_light (d_lights d) &&
     forallb wf_material (d_materials d) && forallb (fun n => is_node n && wf_snode n) (d_nodes d) &&
     forallb wf_vscene (d_scenes d) && oall ref_ok (d_scene d).
